@@ -36,11 +36,14 @@ struct H {
     cap: usize,
     log: Vec<String>,
     desc: String,
+    strategy: UnpinStrategy,
 }
 
 impl H {
-    fn new(cap: usize, s: UnpinStrategy) -> Self {
-        H { cache: TinyLFU::new(cap, s, MaintenanceMode::Piggyback), live: Arc::new(AtomicUsize::new(0)), model: BTreeMap::new(), cap, log: vec![], desc: format!("capacity={cap} strategy={s:?}") }
+    fn new(cap: usize, s: UnpinStrategy) -> Self { Self::new_mode(cap, s, MaintenanceMode::Piggyback) }
+    fn new_mode(cap: usize, s: UnpinStrategy, mode: MaintenanceMode) -> Self {
+        let desc = format!("capacity={cap} strategy={s:?} maintenance={}", if matches!(mode, MaintenanceMode::Piggyback) { "Piggyback" } else { "DedicatedThread" });
+        H { cache: TinyLFU::new(cap, s, mode), live: Arc::new(AtomicUsize::new(0)), model: BTreeMap::new(), cap, log: vec![], desc, strategy: s }
     }
     fn put(&mut self, k: u64, v: u64, pinned: bool) {
         self.log.push(format!("put({k},{v},pinned={pinned})"));
@@ -62,7 +65,9 @@ impl H {
     fn unpin(&mut self, k: u64) {
         self.log.push(format!("unpin({k})"));
         if let Some((_, f)) = self.model.get(&k) { f.store(false, Ordering::SeqCst); }
-        self.cache.unpin(k);
+        // Notify: the owner tells the cache; Poll: the owner only stops reporting the entry as pinned and the cache finds out
+        // by itself during maintenance (every second release still notifies, which Poll mode must tolerate as well)
+        if self.strategy == UnpinStrategy::Notify || k % 2 == 0 { self.cache.unpin(k); }
     }
     fn repin(&mut self, k: u64) {
         self.log.push(format!("repin({k})"));
@@ -192,6 +197,43 @@ fn directed_long_pin(s: UnpinStrategy) -> u64 {
     200
 }
 
+/// the same history with maintenance on the cache's own thread: the pass runs asynchronously, so the bound is awaited (up to
+/// 3 s of repeated nudges) instead of being demanded at once -- a correct cache converges within a few passes
+fn directed_long_pin_dedicated(s: UnpinStrategy) -> u64 {
+    let cap = 8;
+    let mut h = H::new_mode(cap, s, MaintenanceMode::DedicatedThread);
+    h.desc.push_str(" directed: pins parked under pressure and released later, maintenance on the dedicated thread");
+    let mut next = 1000u64;
+    h.put(1, 1, true);
+    let nap = || std::thread::sleep(std::time::Duration::from_millis(2));
+    for _ in 0..(cap as u64 * 3) { let f = next; next += 1; h.put(f, 0, false); let _ = h.get(f); }
+    h.flush(); nap();
+    let mut parked = vec![];
+    for round in 0..300u64 {
+        let k = next | 1; next = k + 1;     // odd keys: in Poll mode their release is never notified (see H::unpin)
+        h.put(k, round, true);
+        for _ in 0..(cap as u64 * 2) { let f = next; next += 1; h.put(f, 0, false); let _ = h.get(f); }
+        h.flush(); nap();
+        parked.push(k);
+    }
+    // while the pins are held none of the parked entries may disappear
+    for k in &parked { if h.get(*k).is_none() { report_found("an entry its owner reports as pinned was evicted", &h.hist(), &format!("get({k}) = None"), "Some(..)"); } }
+    for k in parked { h.unpin(k); }
+    let bound = cap + 1 + SLACK;
+    let mut resident = h.live.load(Ordering::SeqCst);
+    for _ in 0..300 {
+        if resident <= bound { break; }
+        h.flush();
+        std::thread::sleep(std::time::Duration::from_millis(10));
+        resident = h.live.load(Ordering::SeqCst);
+    }
+    if resident > bound {
+        report_found("resident entries exceed capacity + pinned + slack", &h.hist(), &format!("{resident} resident after 3 s of maintenance nudges, 1 pinned, capacity {cap}"), &format!("<= {bound}"));
+    }
+    if h.get(1) != Some(1) { report_found("an entry its owner reports as pinned was evicted", &h.hist(), "get(1) = None", "Some(1)"); }
+    300
+}
+
 /// the bound with nothing pinned, after ordinary traffic has had a chance to push leaked entries out
 fn settle_and_check_bound(h: &mut H, next: &mut u64, what: &str) {
     let keys: Vec<u64> = h.model.keys().cloned().collect();
@@ -313,6 +355,7 @@ fn main() {
         n += run(&format!("directed_empty_probation {s:?}"), &mut || directed_empty_probation(s));
         n += run(&format!("directed_repin {s:?}"), &mut || directed_repin(s));
         n += run(&format!("directed_long_pin {s:?}"), &mut || directed_long_pin(s));
+        n += run(&format!("directed_long_pin_dedicated {s:?}"), &mut || directed_long_pin_dedicated(s));
         for cap in [100usize, 200] {
             n += run(&format!("directed_popular_newcomers capacity={cap} {s:?}"), &mut || directed_popular_newcomers(s, cap));
             n += run(&format!("directed_replace_parked capacity={cap} {s:?}"), &mut || directed_replace_parked(s, cap));
